@@ -557,6 +557,11 @@ def holds(facts, op, left, right):
 
 def happened_before(fm, first_call, node):
     """on every path reaching ``node`` the call ``first_call`` (an ast.Call of the same function) completed."""
+    # a call nested in the arguments (or the receiver) of ``node`` completes before ``node`` itself is called
+    if isinstance(node, ast.Call):
+        inner = list(node.args) + [k.value for k in node.keywords] + [node.func]
+        if any(first_call is x for a in inner for x in ast.walk(a)):
+            return True
     f = fm.facts_at(node)
     if f is None:
         return False
